@@ -4,11 +4,9 @@ import (
 	"go/ast"
 	"go/parser"
 	"go/token"
-	"os"
 	"path/filepath"
 	"sort"
 	"strconv"
-	"strings"
 )
 
 // EnvNames lists the environment variables the root package of dir reads with a
@@ -17,18 +15,14 @@ import (
 // The environment is a configuration input behind no seam of its own; knowing the
 // names lets the simulator vary it.
 func EnvNames(dir string) (names []string, opaque []string) {
-	ents, err := os.ReadDir(dir)
+	files, err := libraryFiles(dir)
 	if err != nil {
 		return nil, nil
 	}
 	seen := map[string]bool{}
-	for _, ent := range ents {
-		name := ent.Name()
-		if ent.IsDir() || !strings.HasSuffix(name, ".go") || strings.HasSuffix(name, "_test.go") {
-			continue
-		}
+	for _, name := range files {
 		fset := token.NewFileSet()
-		f, err := parser.ParseFile(fset, filepath.Join(dir, name), nil, 0)
+		f, err := parser.ParseFile(fset, filepath.Join(dir, filepath.FromSlash(name)), nil, 0)
 		if err != nil {
 			continue
 		}
@@ -96,19 +90,15 @@ func EnvNames(dir string) (names []string, opaque []string) {
 // EnvValueCandidates collects short, simple string literals of the root package: values an
 // environment variable is plausibly compared with ("off", "full", "1", a path, ...).
 func EnvValueCandidates(dir string) []string {
-	ents, err := os.ReadDir(dir)
+	files, err := libraryFiles(dir)
 	if err != nil {
 		return nil
 	}
 	seen := map[string]bool{}
 	var out []string
-	for _, ent := range ents {
-		name := ent.Name()
-		if ent.IsDir() || !strings.HasSuffix(name, ".go") || strings.HasSuffix(name, "_test.go") {
-			continue
-		}
+	for _, name := range files {
 		fset := token.NewFileSet()
-		f, err := parser.ParseFile(fset, filepath.Join(dir, name), nil, 0)
+		f, err := parser.ParseFile(fset, filepath.Join(dir, filepath.FromSlash(name)), nil, 0)
 		if err != nil {
 			continue
 		}
